@@ -617,7 +617,7 @@ def evidence(pid, P, tier, seed, obligations, discharged, supporting, names, cor
         'checker_cmd': 'cd /verif/coq && coq_makefile -f _CoqProject -o Makefile && make -j16 Props/%s.vo  (coqc 8.16.1, full .vo build; Print Assumptions of every pinned theorem audited against an empty allow-list)' % pid,
         'trusted_base': P.get('trusted_base', []) + [
             'Coq 8.16.1 kernel, vm_compute (no native_compute)', 'axioms: none (every pinned theorem: Closed under the global context)',
-            'tools/regen.py (translator of the decision expressions from the Rust source)', 'tools/skel.py + tools/skelagg.py + tools/rustparse.py (translators of the statement skeletons of core.rs/synchronizer.rs/messages.rs/aggregator.rs into the model monads; coq/SkelPrims.v and coq/SkelMonad.v name the primitives)',
+            'tools/regen.py (translator of the decision expressions from the Rust source)', 'tools/skel.py + tools/skelagg.py + tools/skelstore.py + tools/rustparse.py (translators of the statement skeletons of core.rs/synchronizer.rs/messages.rs/aggregator.rs and of the store task loop of store/src/lib.rs into the model monads; coq/SkelPrims.v, coq/SkelMonad.v and coq/StoreSkel.v name the primitives)',
             'correspondence harness /verif/harness (abstraction of keys to ranks, digests to symbolic terms, signatures to provenance)'],
         'theorems': names, 'supporting_lemmas_in_imported_files': supporting,
         'regenerated_skeletons': [{'name': k['name'], 'where': '%s: fn %s (line %s)' % (k.get('file'), k.get('fn'), k.get('line')), 'tied_by': 'coq/Tie_%s.v' % k['name'][4:], **({'untied': k['untied']} if not k.get('ok') else {})} for k in rg.get('skeleton', []) if k['name'][4:] in P.get('tie', [])],
